@@ -163,6 +163,71 @@ PROPS = {
                       "theory outside contract reach). f128 decoders and the extension-field decoders are not under "
                       "contract yet. Closed-term obligations are finite evaluations, not proofs over inputs.",
     },
+    "C15": {
+        "level": "model_checking",
+        "kani": ["c15_blake"],
+        "verus": [],
+        "level_text": "Layout contracts on the BLAKE3 hashers with the primitive replaced by a recorder: the bytes handed to "
+                      "blake3 are exactly the documented layout and the digest is its (truncated) output, for every byte, "
+                      "digest, integer and element value; hash_elements is independent of the internal representation.",
+        "level_note": "Trusted: the blake3 primitive (never entered). Bounded input lengths (5 bytes, 2-3 digests, 2 elements). "
+                      "SHA3-256 entry points and extension-field element lists are not under contract yet.",
+    },
+    "C16": {
+        "level": "model_checking",
+        "kani": ["c16_rp64"],
+        "verus": [],
+        "level_text": "Sponge rules of Rp64_256 (capacity initialisation, 7-byte chunking, single padding byte, rate-block "
+                      "boundaries, merge == hash_elements of 8, merge_with_int split at the modulus) as contracts on the "
+                      "state handed to the permutation, with apply_permutation replaced by a recorder; every byte / "
+                      "element / digest / integer value, enumerated lengths.",
+        "level_note": "PARTIAL: the permutation itself (S-box, inverse S-box chain, frequency-domain MDS vs the MDS matrix, "
+                      "round constants vs the publication) is NOT under contract - SAT cannot decide the multiplications "
+                      "and Verus rejects the slice patterns / closures of that code. Rp62_248 and the Jive variant are "
+                      "not under contract yet.",
+    },
+    "C17": {
+        "level": "model_checking",
+        "kani": ["c16_rp64", "c15_blake"],
+        "verus": [],
+        "level_text": "Necessary condition decided by contracts: the encoding handed to the permutation / primitive is "
+                      "injective on the structured families (zero-extensions, chunk boundaries, trailing zero elements, "
+                      "x vs x + p); different digests then follow from collision resistance (assumed).",
+        "level_note": "Collision resistance of the permutation / BLAKE3 is the standard assumption. Bounded lengths as "
+                      "labelled; Rp62_248, Jive and SHA3 not yet covered.",
+    },
+    "C23": {
+        "level": "model_checking",
+        "kani": ["c23_degrees"],
+        "verus": [],
+        "level_text": "Integer clauses as contracts: evaluation-degree formula and sufficient power-of-two minimum blowup for "
+                      "every base degree and trace length 2^3..2^31 (cycle shapes [], [c], [c, d]); enough composition "
+                      "columns and a large enough constraint-evaluation domain for every accepted (degree, blowup, "
+                      "exemption) combination at enumerated trace lengths.",
+        "level_note": "Shapes (trace length for the column clause, number of cycles) are enumerated, not symbolic. Field "
+                      "clauses (divisor zeros, periodic column polynomials) are not under contract yet.",
+    },
+    "C28": {
+        "level": "model_checking",
+        "kani": ["c28_rowhash_verifier", "c28_rowhash_prover"],
+        "verus": [],
+        "level_text": "Row commitments: the prover's commit_to_rows and the verifier's hash_row are each checked against one "
+                      "shared row-digest specification stated over the recorded calls of an arbitrary hash function, so "
+                      "they agree for every hasher; partition arithmetic is complete over all settings.",
+        "level_note": "PARTIAL: the LDE clauses (evaluate_polys / interpolate_columns equal naive evaluation) are not under "
+                      "contract; row widths <= 6, 2 rows, listed partition settings. ColMatrix::commit_to_rows not covered.",
+    },
+    "C29": {
+        "level": "model_checking",
+        "kani": ["c29_validate"],
+        "verus": [],
+        "level_text": "Trace::validate is run on the real generic code with a mock AIR over F_17 (periodic column, single "
+                      "assertion, trace length 8) and compared with a direct evaluation written in the harness: accepts "
+                      "every satisfying trace, rejects every single-cell corruption at a non-exempt step; fill == init.",
+        "level_note": "BOUNDED: F_17, one AIR shape, length 8, no auxiliary segment, one exemption. BTreeMap in "
+                      "air/src/air/mod.rs replaced by the sorted-Vec model under cfg(kani). Fragment-based (concurrent) "
+                      "filling is not covered.",
+    },
 }
 
 NOT_APPLICABLE = {
